@@ -67,4 +67,28 @@ theorem new_nothrow_is_malloc_or_handler (hp : Nat) (a : Nat → Nat → Nat) (b
     GenE.mi_new_nothrow hp a b c tn size = if GenE.mi_malloc hp a b c size = 0 then tn size 1 else GenE.mi_malloc hp a b c size := by
   unfold GenE.mi_new_nothrow
   simp
+/-- strdup / strndup (entry points of the override): the block requested from the allocator has room for the string *and* its terminator,
+    exactly `len` bytes are copied to its start and the terminating zero is stored at offset `len` — nothing is written outside the block -/
+theorem strndup_stays_inside_its_block (sl : Nat → Nat → Nat) (a : Nat → Nat → Nat) (b : Nat → Nat → Nat → Nat → Nat) (c : Nat → Nat → Nat → Nat → Nat)
+    (heap s n : Nat) (hs : s ≠ 0) (hlen : sl s n + 1 < 2^64) (ht : GenE.mi_heap_malloc a b c heap (sl s n + 1) ≠ 0)
+    (hno : GenE.mi_heap_malloc a b c heap (sl s n + 1) + sl s n < 2^64) :
+    GenE.mi_heap_strndup sl a b c heap s n =
+      (GenE.mi_heap_malloc a b c heap (sl s n + 1),
+        [("_mi_memcpy", [GenE.mi_heap_malloc a b c heap (sl s n + 1), s, sl s n]), ("store8", [GenE.mi_heap_malloc a b c heap (sl s n + 1) + sl s n, 0])]) := by
+  have h64 : (2:Nat)^64 = 18446744073709551616 := by decide
+  rw [h64] at hlen hno
+  unfold GenE.mi_heap_strndup
+  simp only [if_neg hs, Nat.mod_eq_of_lt hlen, if_neg ht, Nat.mul_one, Nat.mod_eq_of_lt hno, List.nil_append, List.cons_append]
+
+theorem strdup_stays_inside_its_block (sl : Nat → Nat) (a : Nat → Nat → Nat) (b : Nat → Nat → Nat → Nat → Nat) (c : Nat → Nat → Nat → Nat → Nat)
+    (heap s : Nat) (hs : s ≠ 0) (hlen : sl s + 1 < 2^64) (ht : GenE.mi_heap_malloc a b c heap (sl s + 1) ≠ 0)
+    (hno : GenE.mi_heap_malloc a b c heap (sl s + 1) + sl s < 2^64) :
+    GenE.mi_heap_strdup sl a b c heap s =
+      (GenE.mi_heap_malloc a b c heap (sl s + 1),
+        [("_mi_memcpy", [GenE.mi_heap_malloc a b c heap (sl s + 1), s, sl s]), ("store8", [GenE.mi_heap_malloc a b c heap (sl s + 1) + sl s, 0])]) := by
+  have h64 : (2:Nat)^64 = 18446744073709551616 := by decide
+  rw [h64] at hlen hno
+  unfold GenE.mi_heap_strdup
+  simp only [if_neg hs, Nat.mod_eq_of_lt hlen, if_neg ht, Nat.mul_one, Nat.mod_eq_of_lt hno, List.nil_append, List.cons_append]
+
 end C19
